@@ -6,7 +6,7 @@
 EXTENDS Naturals, FiniteSets, TLC
 
 Cmds == {"EHLO", "HELO", "MAIL", "RCPT", "DATA", "content", "RSET", "NOOP", "QUIT", "UNKNOWN"}
-Forms == {"ok", "malformed", "bare"}            \* "bare": MAIL / RCPT without any argument (TypeError -> 421, as found: D9)
+Forms == {"ok", "malformed", "bare"}            \* "bare": MAIL / RCPT without any argument (answered 421 + teardown before the D9 fix)
 Verdicts == {0, 450, 550, 421}                  \* what the application's validator answers
 
 VARIABLES ban, helo, mail, rcpt, indata, over, last
@@ -32,13 +32,13 @@ Hello(cmd) == \E form \in {"ok", "malformed"}, v \in Verdicts :
        /\ IF code = 250 THEN helo' = TRUE /\ mail' = FALSE /\ rcpt' = FALSE ELSE UNCHANGED <<helo, mail, rcpt>>
        /\ UNCHANGED <<ban, indata>>
 Mail == \E form \in Forms, v \in Verdicts :
-  IF form = "bare" THEN Done("MAIL", form, {}, 421) /\ Keep
+  IF form = "bare" THEN Done("MAIL", form, {}, 501) /\ Keep
   ELSE IF form = "malformed" THEN Done("MAIL", form, {}, 501) /\ Keep
   ELSE IF ~helo \/ mail THEN Done("MAIL", form, {}, 503) /\ Keep
   ELSE LET code == Code(v, 250) IN
        /\ Done("MAIL", form, {"MAIL"}, code) /\ mail' = (code = 250) /\ UNCHANGED <<ban, helo, rcpt, indata>>
 Rcpt == \E form \in Forms, v \in Verdicts :
-  IF form = "bare" THEN Done("RCPT", form, {}, 421) /\ Keep
+  IF form = "bare" THEN Done("RCPT", form, {}, 501) /\ Keep
   ELSE IF form = "malformed" THEN Done("RCPT", form, {}, 501) /\ Keep
   ELSE IF ~mail THEN Done("RCPT", form, {}, 503) /\ Keep
   ELSE LET code == Code(v, 250) IN
